@@ -41,8 +41,71 @@ func sameUDP(a, b *net.UDPAddr) bool {
 	return a != nil && b != nil && a.IP.Equal(b.IP) && a.Port == b.Port
 }
 
+// record appends the normalised view of this step's traffic to the per-client observation logs:
+// what each client received (ports of relayed addresses, nonces, tokens and transaction ids
+// left out) and what left each client's relay socket.
+func (x *Exec) record(o *Obs) {
+	if x.Obs == nil {
+		x.Obs = map[int][]string{}
+	}
+	for _, d := range o.s2c {
+		ci := x.w.clientIndex(d.To)
+		if ci < 0 {
+			continue
+		}
+		if len(d.Data) >= 4 && d.Data[0]&0xC0 == 0x40 {
+			x.Obs[ci] = append(x.Obs[ci], "recv channeldata "+itoa(int(binary.BigEndian.Uint16(d.Data[0:2])))+" "+hashStr(d.Data[4:]))
+
+			continue
+		}
+		m, err := ref.Parse(d.Data)
+		if err != nil {
+			x.Obs[ci] = append(x.Obs[ci], "recv garbage")
+
+			continue
+		}
+		desc := "recv " + describe(m)
+		for _, a := range m.Attrs {
+			switch a.Type {
+			case ref.AttrLifetime, ref.AttrData, ref.AttrChannelNumber, ref.AttrErrorCode:
+				desc += " " + itoa(int(a.Type)) + "=" + hashStr(a.Value)
+			case ref.AttrXORPeerAddress:
+				ip, port, _ := ref.UnxorAddr(a.Value, m.TxID)
+				desc += " peer=" + ip.String() + ":" + itoa(port)
+			case ref.AttrXORMappedAddress:
+				ip, port, _ := ref.UnxorAddr(a.Value, m.TxID)
+				desc += " mapped=" + ip.String() + ":" + itoa(port)
+			case ref.AttrXORRelayedAddress:
+				ip, _, _ := ref.UnxorAddr(a.Value, m.TxID)
+				desc += " relayed=" + ip.String()
+			default:
+				desc += " attr" + itoa(int(a.Type))
+			}
+		}
+		x.Obs[ci] = append(x.Obs[ci], desc)
+	}
+	for _, d := range o.r2p {
+		for ci, a := range x.m.Allocs {
+			if a.RelaySock != nil && a.RelaySock.ID == d.SrcSock {
+				x.Obs[ci] = append(x.Obs[ci], "relay emits to "+d.To.String()+" "+hashStr(d.Data))
+			}
+		}
+	}
+}
+
+func hashStr(b []byte) string {
+	h := uint64(14695981039346656037)
+	for _, c := range b {
+		h ^= uint64(c)
+		h *= 1099511628211
+	}
+
+	return itoa(len(b)) + "/" + itoa(int(h%1000003))
+}
+
 // checkWire judges everything the server put on the wire in this step.
 func (x *Exec) checkWire(o *Obs, reqs []*reqInfo, emits []emit, dels []deliver, ctx string) { //nolint:cyclop,gocyclo
+	x.record(o)
 	// (1) relay -> peer
 	usedE := make([]bool, len(emits))
 	for _, d := range o.r2p {
